@@ -32,6 +32,21 @@ CHECKS = {
    "Goroutine schedules of the concurrent part are sampled by real parallel execution, not enumerated; a hang is a 5 s watchdog plus a two-snapshot deadlock signature. Needs the verif-tagged Block factory hook in package bgzf.",
    "stateful model-based property testing (exhaustive short histories + rapid) with a reference model; porcupine linearizability check of generated concurrent histories",
    "DESIGN.md 3/C14"),
+ "C01": ("exploration",
+   "Generated-input search: rapid write scripts (Write/WriteToFill/Flush/Wait, payload lengths on every block-size edge up to 3 blocks, compressible and incompressible content, level -1..9, wc 0..17, delayed sink) are written, closed and read back at rd 0..8 with generated Read(n)/ReadByte mixes; oracle = the concatenated payloads (byte-exact, short read only at the end with io.EOF, (0,io.EOF) afterwards) plus compress/gzip as a second decoder.",
+   "Goroutine schedules are sampled (real parallel execution, delays), not enumerated; every call runs under a watchdog.",
+   "property-based testing (rapid): round trip against a reference model, differential against compress/gzip",
+   "DESIGN.md 3/C01"),
+ "C08": ("exploration",
+   "Generated-input search: the same script family with generated gzip header settings (Latin-1 Name/Comment, Extra sub-fields, OS, ModTime incl. values that place BC\\x02\\x00 inside the fixed header) closed or not closed; oracle = an independent RFC 1952/BGZF member walker (sub-field framing, one BC of length 2, true member end via compress/flate, CRC32, ISIZE, BSIZE+1 == length <= 64 KiB, payload <= 65280), header fields equal the configured ones, compress/gzip multistream expansion equals the data, marker <=> closed without error, HasEOF agrees, identical bytes at wc=1.",
+   "Trusted: the harness' member walker and compress/gzip. Scripts refused with ErrBlockOverflow are out of domain (counted).",
+   "property-based testing (rapid): independent format parser + differential (compress/gzip) + metamorphic (wc=1 vs wc=k)",
+   "DESIGN.md 3/C08"),
+ "C12": ("exploration",
+   "Generated-input search over write scripts and completion orders (heavy incompressible block followed by tiny flushed blocks, wc 1..8, delayed sink): after every underlying Write returns and after every API call the delivered bytes must end on a member boundary and decode to a prefix of the data issued so far; after Flush then Wait returned nil the prefix contains everything written before the Flush; after Close everything. Second workload: when bam.NewWriter returns, the sink decodes to exactly the binary header.",
+   "Crash points are the moments the sink can observe (returns of its own Write and of API calls); schedules are sampled.",
+   "property-based testing (rapid) with an observing sink: invariant over the history of underlying writes, independent member walker as oracle",
+   "DESIGN.md 3/C12"),
 }
 
 NOT_YET = {}
